@@ -63,7 +63,7 @@ A_KW_C09 == (Applied /\ ~IsDelete(Ev(lastw'.id))) =>
     /\ \A x \in store \ store' : SameAddr(x, i) /\ Ev(x).ts <= Ev(i).ts
     /\ Older(store, i) \cap store' = {}
     /\ (~IsReplaceable(Ev(i)) => store \subseteq store')
-    /\ (i \in store' \/ \E x \in store' : SameAddr(x, i))      \* the address is never left empty
+    /\ (IsReplaceable(Ev(i)) => (i \in store' \/ \E x \in store' : SameAddr(x, i) /\ Ev(x).ts >= Ev(i).ts))   \* the newest version stays
 KW_C08 == [][A_KW_C08]_<<store, lastw>>
 KW_C09 == [][A_KW_C09]_<<store, lastw>>
 =============================================================================
